@@ -579,7 +579,16 @@ def run_case(case):
                                 ok = False
                     except (ValueError, AssertionError, TypeError):
                         pass  # representation pairs the metric does not support are not this property's subject
-                    CircuitDepth().evaluate(st_, C["obj"])
+                    import graphiq.metrics as gm
+
+                    cm = [gm.CircuitDepth, gm.CircuitUnitaryCount, gm.CircuitMaxEmitDepth, gm.CircuitMaxEmitResetDepth, gm.CircuitMaxEmitEffDepth,
+                          gm.CircuitCnotCount, gm.CircuitMeasureCount, gm.CircuitEmitterCount]
+                    for j in range(3):
+                        M = cm[(a[3] + j * (1 + a[4] % 5)) % len(cm)]
+                        try:
+                            M().evaluate(st_, C["obj"])
+                        except (KeyError, IndexError, ValueError, TypeError, AttributeError):
+                            ctx.probe("circuit_metric_raised")  # what a cost metric returns or supports is C18's subject
                 elif k == "trs":
                     from graphiq.solvers.time_reversed_solver import TimeReversedSolver
 
@@ -598,7 +607,12 @@ def run_case(case):
                     comp.measurement_determinism = 1
                     ctx.probe("solver_on_shared_target")
                     tt = T["obj"]
-                    s = EvolutionarySolver(target=tt, metric=Infidelity(tt), compiler=comp, n_emitter=1, n_photon=tn,
+                    start = None
+                    if C["origin"] in ("trs", "trs_result", "hybrid_result", "alternate_result") and a[3] % 2:
+                        start = C["obj"]  # the caller's own (solver-style) circuit as starting point: it must come back unchanged
+                        ctx.probe("evo_started_from_pool_circuit")
+                    s = EvolutionarySolver(target=tt, metric=Infidelity(tt), compiler=comp, circuit=start,
+                                           n_emitter=1 if start is None else start.n_emitters, n_photon=tn if start is None else start.n_photons,
                                            solver_setting=EvolutionarySolverSetting(n_hof=2, n_stop=2, n_pop=2))
                     s.seed(a[2])
                     what = f"evo:{T['rep']}"
